@@ -512,8 +512,45 @@ func (ex *Exec) sinkCall(fr *Frame, sd *SinkDecl, name string, callee *ssa.Funct
 		ex.obligationFull(fr, st, "call-requires", fmt.Sprintf("text passed to %s.%s (parameter %s) must be %s", sd.Recv, meth, sig.Params().At(i).Name(), what), goal, false, fmt.Sprintf("sink.%s.%d@%d", meth, i, ex.siteOrdinal(ex.cur)), ground)
 		vc.curProps = nil
 	}
+	// a bound argument of type schema.Safe (bun.Safe) is not bound at all: bun writes it into the statement verbatim.
+	// It is text, and must satisfy the predicate like any text parameter.
+	if sig.Variadic() && len(args) == sig.Params().Len()+1 {
+		last := ex.toTerm(st, args[len(args)-1], sig.Params().At(sig.Params().Len()-1).Type())
+		if lit, ok := vc.seqLits[last.S]; ok {
+			for j, e := range lit {
+				if e.Sort != SAny {
+					continue
+				}
+				for _, key := range vc.sorts.anyOrder {
+					c := vc.sorts.anyCtors[key]
+					nt, isNamed := c.typ.(*types.Named)
+					if !isNamed || nt.Obj().Pkg() == nil || !strings.HasSuffix(nt.Obj().Pkg().Path(), "uptrace/bun/schema") || nt.Obj().Name() != "Safe" || c.sort != SStr {
+						continue
+					}
+					goal := implies(app("(_ is "+c.name+")", e.S), app(strict, app(c.sel, e.S)))
+					vc.curProps = sd.Props
+					ex.obligationFull(fr, st, "call-requires", fmt.Sprintf("argument %d of %s.%s: a bun.Safe value is written into the statement verbatim and must be %s", j, sd.Recv, meth, sd.Pred), goal, false, fmt.Sprintf("sink.%s.safe%d@%d", meth, j, ex.siteOrdinal(ex.cur)), true)
+					vc.curProps = nil
+				}
+			}
+		}
+	}
 	if sc := vc.prog.scopeFor(callee); sc != nil {
 		ex.scopeCall(fr, sc, callee, args, st)
+	}
+	if meth == "Where" && vc.prog.curProp == "C17" && len(args) >= 2 {
+		// page arithmetic (C17): the last predicate put on a builder, for the contracts of the paginators
+		if _, ok := vc.prog.contracts.Ghosts["qWhere"]; ok {
+			env := ex.newEnv(st, nil, nil, nil)
+			if g, ok := env.ghostVal("qWhere", st); ok {
+				q := ex.toTerm(st, args[0], nil)
+				t := ex.toTerm(st, args[1], types.Typ[types.String])
+				st.ghost["qWhere"] = Term{app("store", g.T.S, q.S, t.S), g.T.Sort}
+				if st.writes != nil {
+					st.writes.ghost["qWhere"] = true
+				}
+			}
+		}
 	}
 	res := sig.Results()
 	mk := func(i int) Val {
